@@ -59,6 +59,7 @@ type Scenario struct {
 	Late      int   `json:"late_writers"`
 	Pattern   []int `json:"release_pattern"` // flusher cycles released per step before it runs free
 	PendClose bool  `json:"close_with_pending_flush"`
+	Misuse    int   `json:"misuse"` // 0 none, 1 Commit twice, 2 Discard then Commit, 3 both (on transactions with writes)
 }
 
 func genScenario(t *rapid.T) Scenario {
@@ -79,6 +80,7 @@ func genScenario(t *rapid.T) Scenario {
 		Readers:   rapid.IntRange(1, 4).Draw(t, "readers"),
 		Late:      rapid.IntRange(0, 2).Draw(t, "late"),
 		PendClose: rapid.IntRange(0, 3).Draw(t, "pendClose") != 0,
+		Misuse:    rapid.SampledFrom([]int{0, 0, 1, 2, 3}).Draw(t, "misuse"),
 	}
 	n := rapid.IntRange(0, 4).Draw(t, "npattern")
 	for i := 0; i < n; i++ {
@@ -148,6 +150,49 @@ func runScenario(s Scenario, dir string) (res scenResult) {
 			mu.Unlock()
 			commits.Add(1)
 		}
+	}
+	// documented misuse first: a finished transaction is committed again. The calls must return
+	// (their error values are C08's business) and must not leave anything locked behind them.
+	if s.Misuse != 0 {
+		mdone := make(chan struct{})
+		go func() {
+			defer close(mdone)
+			defer func() {
+				if r := recover(); r != nil {
+					prob("panic", fmt.Sprintf("misuse call panicked: %v", r))
+				}
+			}()
+			if s.Misuse&1 != 0 {
+				tx := db.Begin(true)
+				_ = tx.Set("misuse-a", []byte("m1"))
+				if err := tx.Commit(); err == nil {
+					mu.Lock()
+					last["misuse-a"] = "m1"
+					mu.Unlock()
+				}
+				_ = tx.Commit()
+			}
+			if s.Misuse&2 != 0 {
+				tx := db.Begin(true)
+				_ = tx.Set("misuse-b", []byte("m2"))
+				tx.Discard()
+				_ = tx.Commit()
+				tx.Discard()
+			}
+			// and an ordinary commit afterwards
+			if err := db.Update(func(tx *originium.Txn) error { return tx.Set("misuse-c", []byte("m3")) }); err == nil {
+				mu.Lock()
+				last["misuse-c"] = "m3"
+				mu.Unlock()
+			}
+		}()
+		g.holding.Store(false) // these commits may rotate: the flusher must be able to take the memtable
+		if verdict := await(mdone, "Commit on a finished transaction (or the commit after it) did not return"); verdict != nil {
+			res.problems = append(res.problems, *verdict)
+			return
+		}
+		originium.VerifDrain(db, 20*time.Second)
+		g.holding.Store(true)
 	}
 	for w := 0; w < s.Writers; w++ {
 		wg.Add(1)
